@@ -87,3 +87,18 @@ Proof.
   rewrite E in P1. rewrite P1 in P2.
   apply app_inj_tail in P2. exact P2.
 Qed.
+
+(* server mode: the same conservation per socket, under every interleaving of
+   the reads of all sockets *)
+Theorem server_conserve (k : nat) (evs : list (nat * list N)) :
+  exists ls tail, wf_lines ls /\ noLF tail /\
+    projl k (fst (run_srv empty_bufs evs)) = map fst ls /\
+    snd (run_srv empty_bufs evs) k = tail /\
+    concat (proj k evs) = join_lines ls tail.
+Proof.
+  destruct (lines_conserve (proj k evs)) as (ls & tail & W & T & R & E).
+  exists ls, tail.
+  pose proof (server_isolation k evs) as S. rewrite R in S.
+  injection S as S1 S2.
+  split; [exact W|split; [exact T|split; [exact S1|split; [exact S2|exact E]]]].
+Qed.
